@@ -44,6 +44,6 @@ BadState == {n \in {"C08_ConcreteMethod", "C08_Inverse", "C08_FreshIV", "C08_Wro
                   [] n = "C08_MalformedRejected" -> ~C08_MalformedRejected
                   [] n = "C09_Exact" -> ~C09_Exact [] n = "C09_SaltLen" -> ~C09_SaltLen
                   [] n = "C09_HandWrittenHashed" -> ~C09_HandWrittenHashed}
-ReportState == l > 1 => PrintT(<<"TRACE", ToJson([t |-> tid, l |-> l - 1, bo |-> {}, bi |-> BadState])>>)
+ReportState == l > 1 => PrintT(<<"TRACE", ToJson([t |-> tid, l |-> l - 1, bo |-> {}, bi |-> BadState, st |-> TRUE])>>)
 TraceView == <<store, nonce, chal, tid, l>>
 ====
